@@ -24,12 +24,14 @@ import (
 	"strconv"
 	"strings"
 	"sync"
+	"sync/atomic"
 	"time"
 
 	"com.tuntun.rangers/node/src/common"
 	"com.tuntun.rangers/node/src/core"
 	"com.tuntun.rangers/node/src/middleware"
 	"com.tuntun.rangers/node/src/middleware/types"
+	"com.tuntun.rangers/node/src/vm"
 
 	"verifharness/env"
 	"verifharness/mon"
@@ -474,8 +476,40 @@ func childBuild(r *mon.Run, args []string) {
 	castor := common.FromHex(env.DevProposerID)
 	var sh shipped
 	nb := 1 + sc%3
+	slow := sc%3 == 0 // a proposer that runs past the 3 s casting budget inside its first transaction
+	var stepCalls int64
+	if slow {
+		vm.VerifStepHook = func(depth int, pc uint64, op byte, gas uint64, stackLen int, memLen int, readOnly bool) {
+			if atomic.AddInt64(&stepCalls, 1) == 1 {
+				time.Sleep(3200 * time.Millisecond)
+			}
+		}
+	}
 	for b := 0; b < nb; b++ {
 		in := genInput(r.Rand("c01-block", sc, b), sc*10+b, 1)
+		if slow && b == 0 {
+			// the contract creation of the largest source address is executed first (transactions are
+			// sorted by source); the others are left over when the budget is exhausted
+			cd, _ := json.Marshal(types.ContractData{AbiData: createCode, TransferValue: "0", GasLimit: "30000000", GasPrice: "1"})
+			first := TxSpec{Kind: "contract-create", Source: "0x8744c51069589296fcb7faa2f891b1f513a0310c", Data: string(cd), Nonce: 0}
+			var rest []TxSpec
+			for _, s := range in.Txs {
+				if s.Source != first.Source {
+					rest = append(rest, s)
+				}
+			}
+			rest = append(rest, TxSpec{Kind: "transfer", Source: env.RichAccounts[0], Targets: map[string]string{addr(1): "1"}, Nonce: 77},
+				TxSpec{Kind: "transfer", Source: env.RichAccounts[1], Targets: map[string]string{addr(2): "2"}, Nonce: 78})
+			in.Txs = append([]TxSpec{first}, rest...)
+			// no gate request ids here: CastBlock fixes the header's RequestIds from ALL packed
+			// transactions before execution, so a block cut short by the budget that drops the
+			// transaction with the highest request id is rejected by every verifier for a header
+			// inconsistency — a real block-construction defect, but not an execution-determinism one
+			// (recorded in DESIGN.md, outside C01's statement)
+			for i := range in.Txs {
+				in.Txs[i].ReqID = 0
+			}
+		}
 		for i := range in.Txs {
 			in.Txs[i].Tag = fmt.Sprintf("sc%d-b%d-%d", sc, b, i)
 		}
@@ -488,6 +522,12 @@ func childBuild(r *mon.Run, args []string) {
 		if err != nil {
 			fmt.Println("MACHINERY: build:", err)
 			os.Exit(3)
+		}
+		if slow && b == 0 {
+			r.Count("slow_proposer_blocks", 1)
+			if len(blk.Transactions) < len(txs) {
+				r.Count("slow_proposer_blocks_cut_short", 1)
+			}
 		}
 		bb, _ := types.MarshalBlock(blk)
 		sh.Blocks = append(sh.Blocks, hex.EncodeToString(bb))
@@ -621,6 +661,6 @@ func main() {
 		DistinctNontrivial: int64(r.DistinctCount("nontrivial_inputs")),
 		Rule:               fmt.Sprintf("executor layer: seeded inputs (1-8 txs: multi-target transfers incl. the source among the targets, re-spelled addresses, amounts summing around the balance, boundary amount strings; miner apply/add/refund/change-account with colliding ids/accounts; contract create/call) on the genesis state and on post-states committed during the run, each executed %d times on fresh AccountDBs; whole-block layer: blocks cast by a builder process re-verified by %d fresh processes each. Non-trivial: >= 2 txs or >= 2 transfer targets; distinct by input", reps, replicas),
 		Assumptions:        []string{"one machine / architecture / Go toolchain", "map iteration orders are sampled by repetition (a 2-order dependence is missed with probability 2^-(R-1))"},
-		MustObserve:        []string{"inputs", "executions", "tx_kind_transfer", "tx_kind_miner-apply", "tx_kind_contract-create", "parent_states_committed", "replica_block_verifications"},
+		MustObserve:        []string{"inputs", "executions", "tx_kind_transfer", "tx_kind_miner-apply", "tx_kind_contract-create", "parent_states_committed", "replica_block_verifications", "slow_proposer_blocks_cut_short"},
 	})
 }
